@@ -1,6 +1,7 @@
 //! mdx-check: runtime monitors for the mantra-dex properties C01..C20.
 
 mod exact;
+mod farmobs;
 mod ops;
 mod poolev;
 mod ssx;
